@@ -1,9 +1,10 @@
 use crate::{
     builtins::Builtin,
+    expression::MAX_EXPRESSION_DEPTH,
     operators::{AddOrSubtractOp, EqualityOp, MultiplyOrDivideOp, UnaryOp},
     program::{Program, ProgramLocation},
     symbol::Symbol,
-    SyntaxError, Token, TracedInterpreterError,
+    OutOfMemoryError, SyntaxError, Token, TracedInterpreterError,
 };
 
 use super::{
@@ -17,6 +18,7 @@ use super::{
 pub struct ExpressionAnalyzer<'a> {
     program: &'a mut Program,
     symbol_accesses: &'a mut SymbolAccessMap,
+    depth: usize,
 }
 
 impl<'a> ExpressionAnalyzer<'a> {
@@ -24,11 +26,20 @@ impl<'a> ExpressionAnalyzer<'a> {
         ExpressionAnalyzer {
             program,
             symbol_accesses,
+            depth: 0,
         }
     }
 
     pub fn evaluate_expression(&mut self) -> Result<ValueType, TracedInterpreterError> {
-        self.evaluate_logical_or_expression()
+        // The interpreter refuses to evaluate expressions nested deeper than this,
+        // and we'd run out of native stack ourselves at some point.
+        if self.depth == MAX_EXPRESSION_DEPTH {
+            return Err(OutOfMemoryError::StackOverflow.into());
+        }
+        self.depth += 1;
+        let result = self.evaluate_logical_or_expression();
+        self.depth -= 1;
+        result
     }
 
     pub fn evaluate_array_index(&mut self) -> Result<usize, TracedInterpreterError> {
